@@ -3,6 +3,7 @@ package props
 import (
 	"encoding/json"
 	"fmt"
+	"io"
 	"net/http"
 	"net/url"
 	"reflect"
@@ -29,6 +30,9 @@ type c15Case struct {
 	// Pre: what a middleware did with the request before the handler: "" | parseform (r.ParseForm) | formvalue
 	// (r.FormValue, which also parses a multipart body)
 	Pre string `json:"pre,omitempty"`
+	// Len: how the body reaches net/http: "" a reader of known length | unknown (a reader type whose length the
+	// client does not know: ContentLength 0 with a body) | chunked (ContentLength -1, as a server sees a chunked body)
+	Len string `json:"len,omitempty"`
 }
 
 const c15Multipart = "--x\r\nContent-Disposition: form-data; name=\"name\"\r\n\r\nM-name\r\n--x\r\nContent-Disposition: form-data; name=\"opt\"\r\n\r\nM-opt\r\n--x\r\nContent-Disposition: form-data; name=\"tags[]\"\r\n\r\nM1\r\n--x--\r\n"
@@ -110,9 +114,17 @@ func propC15(c c15Case) hh.Verdict {
 	if c.Query != "" {
 		target += "?" + c.Query
 	}
-	req, err := http.NewRequest(c.Method, target, strings.NewReader(c.Body))
+	var body io.Reader = strings.NewReader(c.Body)
+	if c.Len != "" {
+		body = io.NopCloser(strings.NewReader(c.Body))
+	}
+	req, err := http.NewRequest(c.Method, target, body)
 	if err != nil {
 		return hh.Verdict{Skip: "request-not-constructible"}
+	}
+	if c.Len == "chunked" {
+		req.ContentLength = -1
+		req.TransferEncoding = []string{"chunked"}
 	}
 	if c.CType != "" {
 		req.Header.Set("Content-Type", c.CType)
@@ -128,6 +140,7 @@ func propC15(c c15Case) hh.Verdict {
 	var errs z.ZogIssueMap
 	var pan any
 	c15Prelude()
+	factory := zhttp.Request(req)
 	func() {
 		defer func() { pan = recover() }()
 		if c.Ptr {
@@ -136,12 +149,12 @@ func propC15(c c15Case) hh.Verdict {
 			if c.NotNil {
 				ps = ps.NotNil()
 			}
-			errs = ps.Parse(zhttp.Request(req), &dp)
+			errs = ps.Parse(factory, &dp)
 			if dp != &dest {
 				pan = "the pointer schema replaced a non-nil destination pointer"
 			}
 		} else {
-			errs = schema.Parse(zhttp.Request(req), &dest)
+			errs = schema.Parse(factory, &dest)
 		}
 	}()
 	if pan != nil {
@@ -253,6 +266,22 @@ func propC15(c c15Case) hh.Verdict {
 		}
 		if elemCalls != 0 || !reflect.DeepEqual(dest, sentinel) {
 			return hh.Fail("undecodable request but the destination was touched: %+v", dest)
+		}
+		if !c.Ptr && decodeFail == "invalid_json" { // (net/http reports a malformed form to the first ParseForm only)
+			// a request that cannot be decoded cannot be decoded the second time either: handing the same provider to
+			// another schema (an envelope schema and a payload schema share one request) gives the same single issue
+			dest2 := sentinel
+			var errs2 z.ZogIssueMap
+			func() {
+				defer func() { pan = recover() }()
+				errs2 = schema.Parse(factory, &dest2)
+			}()
+			if pan != nil {
+				return hh.Fail("panic on the second use of the provider: %v", pan)
+			}
+			if r2 := errs2["$root"]; len(errs2) != 2 || len(r2) != 1 || r2[0].Code != decodeFail || !reflect.DeepEqual(dest2, sentinel) {
+				return hh.Fail("undecodable %s request handed to a second schema: expected exactly one %s issue at $root and an untouched destination, got %v / %+v", source, decodeFail, z.Issues.SanitizeMap(errs2), dest2)
+			}
 		}
 		return v
 	}
@@ -371,6 +400,20 @@ func TestC15(t *testing.T) {
 			}
 		}
 	}, propC15)
+	// bodies whose length net/http does not know in advance (streaming clients, chunked transfer)
+	hh.Enumerate(h, "dispatch-product-unknown-length", func(yield func(c15Case)) {
+		for _, ln := range []string{"unknown", "chunked"} {
+			for _, m := range c15Methods {
+				for _, ct := range []string{"application/json", "application/json; charset=utf-8", "application/x-www-form-urlencoded", "text/plain"} {
+					for _, b := range []string{c15Bodies[0], c15Bodies[13], `{}`, ``, `{"name":"J-na`, `name=%zz`} {
+						for _, q := range []string{"", "name=Q-name&tags%5B%5D=Q1"} {
+							yield(c15Case{Method: m, CType: ct, Body: b, Query: q, Len: ln})
+						}
+					}
+				}
+			}
+		}
+	}, propC15)
 	hh.Enumerate(h, "dispatch-product-pointer-root", func(yield func(c15Case)) {
 		for _, m := range c15Methods {
 			for _, ct := range []string{"", "application/json", "application/json; charset=utf-8", "application/x-www-form-urlencoded", "text/plain"} {
@@ -390,6 +433,7 @@ func TestC15(t *testing.T) {
 		if c.Ptr {
 			c.NotNil = rapid.Bool().Draw(rt, "notnil")
 		}
+		c.Len = rapid.SampledFrom([]string{"", "", "", "unknown", "chunked"}).Draw(rt, "len")
 		if rapid.IntRange(0, 3).Draw(rt, "pre") == 0 {
 			c.Pre = rapid.SampledFrom([]string{"parseform", "formvalue"}).Draw(rt, "prek")
 		}
